@@ -7,6 +7,7 @@ package main
 
 import (
 	"fmt"
+	"os"
 	"runtime"
 	"sort"
 	"strconv"
@@ -117,7 +118,10 @@ type runner struct {
 	errq       int
 	deadlock   bool
 	unexpected int // releases predicted not to block that did not arrive in time
+	running    int // workers between w-start and w-exit (each of them holds a semaphore token)
+	maxRunning int
 	forced     string
+	stalled    bool // the machine starved the run; no verdict
 }
 
 func newRunner(cfg cfgT) *runner {
@@ -221,6 +225,7 @@ func (r *runner) hook(kind string, job int) {
 		if r.free {
 			r.mu.Lock()
 			r.events = append(r.events, tok(kind, job))
+			r.count(kind)
 			r.mu.Unlock()
 		}
 		return
@@ -232,6 +237,18 @@ func (r *runner) hook(kind string, job int) {
 	p := &point{g: g, kind: kind, job: job, resume: make(chan struct{})}
 	r.arrivals <- p
 	<-p.resume
+}
+
+func (r *runner) count(kind string) {
+	switch kind {
+	case "w-start":
+		r.running++
+		if r.running > r.maxRunning {
+			r.maxRunning = r.running
+		}
+	case "w-exit":
+		r.running--
+	}
 }
 
 func retTok(err error, pan interface{}) string {
@@ -284,6 +301,7 @@ func (r *runner) onArrive(p *point) {
 		return
 	}
 	r.events = append(r.events, tok(p.kind, p.job))
+	r.count(p.kind)
 	r.parked[p.g] = p
 	delete(r.inflight, p.g)
 	switch p.kind {
@@ -437,8 +455,11 @@ func (r *runner) freeChoice(ch chooser, watchdog time.Duration) {
 		}
 		if len(r.parked) == 0 {
 			n := len(r.events)
-			if !r.pump(func() bool { return len(r.events) > n || r.finished() }, watchdog) {
-				r.deadlock = true
+			prog := func() bool { return len(r.events) > n || r.finished() }
+			// no goroutine is parked and nothing arrives: confirm with a second, longer wait before
+			// calling it a deadlock (a loaded machine must not produce a false alarm)
+			if !r.pump(prog, watchdog) && !r.confirmStuck(prog) {
+				r.deadlock = !r.stalled
 				return
 			}
 			continue
@@ -478,7 +499,7 @@ func (r *runner) force(steps []string, long time.Duration) string {
 			g, _ = strconv.Atoi(gs)
 		}
 		for hops := 0; ; hops++ {
-			if !r.pump(r.arrived(g), long) {
+			if !r.pump(r.arrived(g), long) && !r.confirmStuck(r.arrived(g)) {
 				return fmt.Sprintf("stuck@%d:%s", i, st)
 			}
 			if g == -1 && r.dispDone {
@@ -545,7 +566,83 @@ func (r *runner) abandon(base int) bool {
 			time.Sleep(200 * time.Microsecond)
 		}
 	}
-	return runtime.NumGoroutine() <= base
+	if runtime.NumGoroutine() <= base {
+		return true
+	}
+	// goroutines of this run are still alive: a leak only if they are verifiably blocked for good.
+	// The next run must not start while any of them can still reach a trace point.
+	for i := 0; i < 3000; i++ {
+		if runtime.NumGoroutine() <= base {
+			return true
+		}
+		if n, b := allBlocked(); n > 0 && b {
+			time.Sleep(20 * time.Millisecond)
+			if n2, b2 := allBlocked(); n2 > 0 && b2 {
+				return false
+			}
+		} else if n == 0 {
+			return true // what is left does not belong to the implementation under test
+		}
+		time.Sleep(20 * time.Millisecond)
+	}
+	fmt.Fprintln(os.Stderr, "c19: starved: goroutines of an abandoned run are still runnable after 60 s")
+	os.Exit(4)
+	return true
+}
+
+// allBlocked inspects the goroutine dump: true iff every goroutine that belongs to the implementation under
+// test (OnFinished and its workers, or the goroutine that is about to call it) sits in a blocking primitive
+// (channel operation, select, WaitGroup.Wait) outside the harness' trace-point hook. A timeout alone is never
+// taken as a deadlock: a starved but runnable goroutine keeps the run alive.
+func allBlocked() (related int, blocked bool) {
+	buf := make([]byte, 1<<20)
+	n := runtime.Stack(buf, true)
+	blocked = true
+	for _, g := range strings.Split(string(buf[:n]), "\n\n") {
+		if !strings.Contains(g, "asyncPostProcess).OnFinished") && !strings.Contains(g, "(*runner).start") && !strings.Contains(g, ".Persist") {
+			continue
+		}
+		related++
+		head := g
+		if i := strings.Index(g, "\n"); i >= 0 {
+			head = g[:i]
+		}
+		ok := false
+		for _, st := range []string{"[chan receive", "[chan send", "[select", "[semacquire", "[sync.WaitGroup.Wait", "[sync.Mutex.Lock", "[sync.Cond.Wait"} {
+			if strings.Contains(head, st) {
+				ok = true
+			}
+		}
+		if strings.Contains(g, "(*runner).hook") || strings.Contains(g, "(*runner).PostProcess") || strings.Contains(g, "(*runner).write") {
+			ok = false // inside the harness: will arrive
+		}
+		if !ok {
+			blocked = false
+		}
+	}
+	return
+}
+
+// confirmStuck is called after a timeout: waits (up to a hard limit) until cond() holds or the implementation's
+// goroutines are verifiably all blocked. Returns cond(); sets r.stalled when neither happened.
+func (r *runner) confirmStuck(cond func() bool) bool {
+	for i := 0; i < 60; i++ {
+		if r.pump(cond, 20*time.Millisecond) {
+			return true
+		}
+		if _, b := allBlocked(); b {
+			// re-check once: the dump and the arrival queue are not atomic
+			if r.pump(cond, 50*time.Millisecond) {
+				return true
+			}
+			if _, b2 := allBlocked(); b2 {
+				return false
+			}
+		}
+		time.Sleep(time.Duration(i) * 10 * time.Millisecond)
+	}
+	r.stalled = true
+	return cond()
 }
 
 type outcome struct {
@@ -554,6 +651,7 @@ type outcome struct {
 	Events   []string
 	Releases []string
 	Forced   string
+	Stalled  bool
 	Deadlock bool
 	Leak     bool
 	Fails    []vl.OracleFail
@@ -587,6 +685,9 @@ func (r *runner) oracle(o *outcome) []string {
 	defer r.mu.Unlock()
 	if len(r.lateWork) > 0 {
 		bad = append(bad, "work-in-flight-after-return")
+	}
+	if r.maxRunning > r.k() {
+		bad = append(bad, "semaphore-exceeded")
 	}
 	if len(r.unknownPath) > 0 {
 		bad = append(bad, "foreign-path")
@@ -660,6 +761,7 @@ func runControlled(cfg cfgT, steps []string, ch chooser, watchdog time.Duration)
 	if !r.deadlock && !quiet {
 		o.Leak = true
 	}
+	o.Stalled = r.stalled
 	o.Events = r.events
 	o.Releases = r.releases
 	if r.dispDone {
@@ -683,22 +785,33 @@ func runFree(cfg cfgT, jitter *uint64, timeout time.Duration) (*outcome, []strin
 	r.jitter = jitter
 	r.start()
 	o := &outcome{}
-	select {
-	case p := <-r.arrivals:
-		o.Ret = retTok(p.err, p.pan)
-	case <-time.After(timeout):
-		o.Ret = "none"
-		o.Deadlock = true
-	}
-	deadline := time.Now().Add(timeout)
-	for runtime.NumGoroutine() > base && time.Now().Before(deadline) {
-		runtime.Gosched()
-		if runtime.NumGoroutine() > base {
-			time.Sleep(50 * time.Microsecond)
+	returned := false
+	for i := 0; i < 200 && !returned; i++ {
+		select {
+		case p := <-r.arrivals:
+			o.Ret = retTok(p.err, p.pan)
+			returned = true
+		case <-time.After(timeout / 20):
+			if n, b := allBlocked(); i >= 20 && n > 0 && b {
+				i = 1000 // verifiably blocked
+			}
 		}
 	}
-	if !o.Deadlock && runtime.NumGoroutine() > base {
-		o.Leak = true
+	if !returned {
+		o.Ret = "none"
+		if _, b := allBlocked(); b {
+			o.Deadlock = true
+		} else {
+			o.Stalled = true
+		}
+	}
+	if !o.Stalled {
+		quiet := r.abandon(base)
+		if !o.Deadlock && !quiet {
+			o.Leak = true
+		}
+	} else {
+		r.abandon(base)
 	}
 	r.draining.Store(true)
 	generator.VerifPoint = nil
